@@ -1362,12 +1362,16 @@ impl Sim {
         let crash = self.cfg.mode == Mode::Crash || self.pending_crash.is_some();
         let fail_k = self.pending_fail.take();
         let starve = std::mem::take(&mut self.pending_starve) && !crash;
-        let faulted = fail_k.is_some() || starve;
+        let fsize = self.pending_fsize.take().filter(|_| !crash).map(|m| self.fsize_limit(m));
+        if fsize.is_some() {
+            self.stats.inc("fault/fsize_limit");
+        }
+        let faulted = fail_k.is_some() || starve || fsize.is_some();
         let (r, points, snaps, fired) = {
             let store = self.store.as_ref().unwrap();
             let held = if starve { exhaust_readers(store) } else { vec![] };
             self.hooks_begin(crash, fail_k);
-            let r = real::catch(|| store.vanish(&ev));
+            let r = with_fsize_limit(fsize.unwrap_or(u64::MAX), || real::catch(|| store.vanish(&ev)));
             let (points, snaps, fired, _) = self.hooks_end();
             drop(held);
             (r, points, snaps, fired)
